@@ -142,6 +142,7 @@ def git_fault_campaign(chk, b, rng, tier, scratch):
         ("large-json", large, ["--json", "--json-version=2", "--no-progress"]),
         ("small-refgroups-json", small_rg, ["--json", "--json-version=2", "--no-progress"]),
         ("small-refgroups-table-group-option", small_rg, ["-v", "--no-progress", "--include", "@mine", "--exclude", "@solo"]),
+        ("small-json-cpuprofile", small, ["--json", "--no-progress", "--cpuprofile=" + os.path.join(d, "cpu-faults.prof")]),
     ]
     jobs = []
     jid = 0
@@ -352,6 +353,12 @@ def other_faults(chk, b, rng, tier, small_m, small, sz, d):
                 chk.inconc(det)
             else:
                 chk.violation("C10/%s/%s" % (name, clause), det)
+    # the same cases again together with options that only add side activities (a CPU profile written outside the repository,
+    # the reference listing): how a run ends must not depend on them
+    # (none of them belongs to an option family that a gitconfig entry of these cases could be overridden by)
+    extras = [["--cpuprofile=" + os.path.join(d, "cpu.prof")], ["--show-refs"], ["--cpuprofile=" + os.path.join(d, "cpu2.prof"), "--show-refs"]]
+    cases = cases + [(n + "/with-" + x[0].split("=")[0].lstrip("-"), c, x + [y for y in a if y != "--no-progress" or "--progress" not in x], e)
+                     for i, (n, c, a, e) in enumerate(cases) for x in [extras[i % len(extras)]]]
     for name, cwd, a, env in cases:
         r = R.sizer(sz, cwd, a, env=env, tmpdir=d, timeout=20)
         chk.count()
@@ -409,6 +416,24 @@ def other_faults(chk, b, rng, tier, small_m, small, sz, d):
             elif not r_.err.strip():
                 chk.violation("C10/output-fault/non-zero-exit-without-error-message", {"argv": fmt_args, "limit": n_})
             chk.nontrivial(("output-limit", tuple(fmt_args), n_))
+    # stdout switched to non-blocking mode by another holder of the pipe while the program runs, one-page pipe, slow reader: the
+    # write of the report stops half-way with EAGAIN
+    rgdir = os.path.join(d, "small-refgroups")
+    for fmt_args in (["--json", "--json-version=2", "--no-progress"], ["-v", "--no-progress"], ["--json", "--no-progress"]):
+        tgt = rgdir if os.path.isdir(rgdir) else small
+        base = R.sizer(sz, tgt, fmt_args, tmpdir=d).out
+        r, got = R.nonblocking_stdout_run(sz, tgt, fmt_args, b.shimdir(), d)
+        ofaults += 1
+        chk.count()
+        if r.timed_out:
+            chk.inconc("watchdog in a non-blocking stdout run")
+        elif r.rc == 0 and got != base:
+            chk.violation("C10/output-fault/exit-0-although-report-could-not-be-written/EAGAIN/" + ("json" if "--json" in fmt_args else "table"),
+                          {"argv": fmt_args, "report_length": len(base), "received": len(got)})
+        elif r.rc != 0 and not r.err.strip():
+            chk.violation("C10/output-fault/non-zero-exit-without-error-message", {"argv": fmt_args, "fault": "EAGAIN"})
+        if len(base) > 4096:
+            chk.nontrivial(("output-eagain", tuple(fmt_args)))
     chk.cov["output_fault_cases"] = ofaults
 
 
